@@ -66,7 +66,7 @@ func (c *Class) val(v Val, depth int) {
 		c.NilOrEmpty = true
 	}
 	switch v.T {
-	case "dict", "obj", "embed", "fieldsmap", "fieldsslice", "func":
+	case "dict", "obj", "embed", "fieldsmap", "fieldsslice", "fieldsodd", "fieldsbad", "func":
 		if len(v.Ops) == 0 {
 			c.NilOrEmpty = true
 		}
